@@ -301,6 +301,9 @@ def run(repo: Repo, rep: Report, tier: str) -> None:
     from ..core.report import Only
     from . import c12 as _c12
     _c12.run(repo, Only(rep, {"R12.1c"}), tier)
+    from ..core import helper_contracts as _hc2
+    _hc2.report(repo, rep, "R09.6", _hc2.dataclass_fields_contract(repo), "mashumaro.core.meta.code.builder::CodeBuilder.dataclass_fields")
+    _hc2.report(repo, rep, "R17.8", _hc2.add_type_modules_contract(repo), "mashumaro.core.meta.code.builder::CodeBuilder.add_type_modules")
 
 def _fieldless(repo: Repo, rep: Report) -> None:
     fi = repo.func(M_BUILDER, "CodeBuilder._add_unpack_method_lines")
@@ -330,3 +333,9 @@ def _fieldless(repo: Repo, rep: Report) -> None:
 _ADDENDUM = ' The field block analysis treats a generator path that never asks whether the unpacker is the identity as serving both kinds of field. Borrowed: R12.1c (exception translation of the discriminator dispatcher).'
 EXPLANATION += _ADDENDUM
 LEVEL_TEXT += _ADDENDUM
+_ADD3 = " Borrowed: R09.6 (dataclass_fields: the nearest ancestor's Field wins; a bare re-annotation drops the inherited Field)."
+EXPLANATION += _ADD3
+LEVEL_TEXT += _ADD3
+_ADD4 = ' Borrowed: R17.8 (error paths render type references, whose modules must be registered).'
+EXPLANATION += _ADD4
+LEVEL_TEXT += _ADD4
